@@ -1,4 +1,4 @@
-from contracts import errs, exitcode
+from contracts import errs, exitcode, unused_ign
 
 def build(tier):
-    return dict(targets=errs.targets_c13(tier) + exitcode.targets(tier), assumptions=[], trusted_base=[])
+    return dict(targets=errs.targets_c13(tier) + exitcode.targets(tier) + unused_ign.targets(tier), assumptions=[], trusted_base=[])
